@@ -258,6 +258,32 @@ func checkC03(c *mc.Ctx) {
 		append(bytes.Repeat([]byte{0x22}, 5), streams[0].Bytes...)}
 	fams = append(fams, c03Family{name: "garbage", n: int64(len(garb)), cfgs: c03Cfgs([]int{0, 188, 192, 204, 189, 376}, true), gen: func(i int64) []byte { return garb[i] }, bound: "empty, single bytes, all-sync, zeros, no second sync byte, leading junk"})
 	fams = append(fams, c03Family{name: "wrong-explicit-size", n: 1, cfgs: c03Cfgs([]int{189, 192, 204, 376}, true), gen: func(int64) []byte { return streams[0].Bytes }, bound: "188-byte stream read with other explicit sizes"})
+	// very large payload units (size arithmetic of the reassembly buffers): n full packets of one PID with
+	// continuous counters, on a PES PID, the PAT PID and an SI PID, around 64 KiB and 128 KiB
+	bigNs := []int{355, 356, 357, 358, 712, 713, 714}
+	bigPIDs := []uint16{0x100, 0x0000, 0x0012}
+	fams = append(fams, c03Family{name: "big-unit:", n: int64(len(bigNs) * len(bigPIDs) * 2), cfgs: []c03Cfg{{188, "seek", "data", "none"}, {0, "bufio", "data", "none"}, {188, "plain", "packet", "none"}},
+		gen: func(i int64) []byte {
+			n := bigNs[i%int64(len(bigNs))]
+			i /= int64(len(bigNs))
+			pid := bigPIDs[i%int64(len(bigPIDs))]
+			i /= int64(len(bigPIDs))
+			fill := []byte{0x00, 0xa5}[i]
+			b := make([]byte, 0, (n+1)*188)
+			for k := 0; k <= n; k++ { // n packets of the unit, then the start of the next unit
+				p := make([]byte, 188)
+				for j := range p {
+					p[j] = fill
+				}
+				p[0], p[1], p[2], p[3] = 0x47, byte(pid>>8), byte(pid), 0x10|byte(k&0xf)
+				if k == 0 || k == n {
+					p[1] |= 0x40
+					copy(p[4:], []byte{0x00, 0x00, 0x01, 0xe0, 0x00, 0x00, 0x80, 0x00, 0x00})
+				}
+				b = append(b, p...)
+			}
+			return b
+		}, bound: "units of 355..358 and 712..714 full packets (just below / above 65536 and 131072 payload bytes) x PID {PES, PAT, SI} x 2 fills"})
 	fams = append(fams, c03Dispatch(c)...)
 
 	for _, f := range fams {
@@ -291,7 +317,7 @@ func checkC03(c *mc.Ctx) {
 			c.Ev.Sample(map[string]any{"family": f.name, "cases": f.n, "configs": nc, "example_cfg": f.cfgs[0].String()})
 		}
 	}
-	c.Ev.Require("auto-detect-config", "family:mutate", "family:truncate", "family:af-dispatch", "family:pes-dispatch", "family:table-dispatch", "family:descriptor-dispatch")
+	c.Ev.Require("auto-detect-config", "family:big-unit", "family:mutate", "family:truncate", "family:af-dispatch", "family:pes-dispatch", "family:table-dispatch", "family:descriptor-dispatch")
 }
 
 func familyClass(n string) string {
